@@ -7,19 +7,26 @@ TRUSTED_BASE = [
     "Print Assumptions of every theorem in coq/Properties/C07.v: closed under the global context",
     "hand-written model coq/Model/UdpFlows.v of the two flow tables (udp_pipe.rs udp_connections, udp_forwarder.rs connections); sockets, the OS and time are operations of the model, not part of it",
     "translator tools/gen_tables.py -> Generated/UdpFacts.v: on_timer_tick closes the reversed key and uses a strict last_activity < now - timeout test, a failed open removes the flow again, a send error yields SendStatus::Dropped, Done/UdpClose remove on both sides, forwarder table keyed and labelled as modelled",
+    "hand-written model coq/Model/SocksFlows.v of the pipe's pairs over the SOCKS5 forwarder's associations (not extracted: theorem and examples only); Generated/SocksFacts.v: "
+    "a further destination is recorded in its source's association, a failed read drops the association and reports its flows closed client -> peer, a failed send yields SendStatus::Dropped; "
+    "Generated/UdpFacts.v UDP_TICK_RUNS_BESIDE_THE_DIRECTIONS: DuplexPipe::exchange polls the timer beside exchange_once and never drops it",
     "environment assumptions of the engine c07_run (coq/Extract/Engines.v): loopback echo servers answer, a datagram to a closed port is never answered and its ICMP error only fails a later send (tokio's readable() is not woken by EPOLLERR alone, so the flow lives until it expires), 255.255.255.255:9 cannot be connected, idle times stay at least 150 ms away from the window [T, T + T/4] in which the tick phase decides",
     "extraction (ExtrOcamlBasic only) + driver.ml, cross-checked against vm_compute; harness door verif::udp::run_multiplexer + verif::metrics::snapshot",
 ]
 ASSUMPTIONS = [
     "the kernel delivers loopback UDP datagrams and ICMP port-unreachable errors within 25 ms",
     "the downstream (client side) source and sink are the verif mirror traits wired to channels; the HTTP/2 _udp2 codec in front of them is covered by C06",
-    "cancel-safety of restarting exchange_once every timeout/4 (a datagram being handed over at the instant of the tick) is a scheduling matter the model does not exhibit",
+    "the operations of the models are atomic: the expiry tick is modelled between datagrams, and (SocksFlows.v, KCut) at the one place where setting a flow up really waits, the SOCKS5 association; "
+    "that no other await of the two directions is cut short rests on the fact that exchange_once is no longer dropped on a tick",
+    "scripted SOCKS5 server and relay on loopback (c15_udp_front): replies are waited for 1.5 s per datagram and 2 s more at the end; a closed relay port is a port bound and released just before",
 ]
 RULE = ("operation histories over up to 6 flows (distinct client sources; destinations: two echo servers, a port-53 echo server, a closed port, an unconnectable address): "
         "client datagrams, sleeps (short, medium, longer than T + T/4), gauge/liveness observations; families: mixed traffic, expiry and reuse of the same pair, "
         "partial expiry with one refreshed flow, failing flows between healthy traffic, DNS flows released on answer; every datagram carries the direct oracle "
         "(echo flows: delivered to exactly their destination through their own socket and answered with the reversed label; the multiplexer stays alive; "
-        "gauge = number of live flows); non-trivial = every case; distinct = distinct history")
+        "gauge = number of live flows); through the endpoint over a SOCKS5 upstream: a fault confined to one association (malformed relay packet = read error, "
+        "closed relay port = refused sends) and a slow UDP ASSOCIATE under a short UDP timeout, with a second client source going on: the tunnel stays open and every "
+        "datagram not addressed to the faulty association is answered, including later ones on the pair that failed; non-trivial = every case; distinct = distinct history")
 RETRY_PREFIX = "live"
 
 T = 800
@@ -163,6 +170,12 @@ def gen_cases(rng, ctx):
     # one client source talking to two destinations through the SOCKS5 upstream: the first flow expires, the second goes on
     l = line("c15_udp_front", [[0, 0, 0, 0, 1]])
     cases.append(Case(l, None, kind="live:socks5-shared-source", nontrivial=True, meta={"socks_shared": True}))
+    # a fault confined to one association of the SOCKS5 upstream while another client source goes on: 2 = the relay answers a datagram with
+    # a packet that is too short (error on the reading side), 3 = the association's relay port is closed (sends are refused), 4 = the SOCKS5
+    # server answers UDP ASSOCIATE after 150 ms with a UDP timeout of 400 ms (the expiry timer runs while a flow is being set up)
+    for fault in (2, 3, 4):
+        l = line("c15_udp_front", [[0, 0, 0, 0, fault]])
+        cases.append(Case(l, None, kind="live:socks5-association-fault", nontrivial=True, meta={"socks_fault": fault}))
     # an error on the reading side of a flow's socket (the peer answered and went away, the client sent once more)
     for t in ([300, 200, 500] if thorough else [300, 200]):
         l = line("c07_read_error", [[t]])
@@ -197,6 +210,32 @@ def judge(case, impl, model, spec, ctx):
             return [("disagree", "%s: CONNECT _udp2 answered %d" % (what, st))]
         if replies + 2 < sent:
             return [("violation", "%s: only %d of %d replies on the second flow came back (the expiry of one flow disturbed another)" % (what, replies, sent))]
+        return []
+    if case.meta.get("socks_fault"):
+        fault = case.meta["socks_fault"]
+        toks = [untok(t) for t in impl.split()]
+        st, closed = toks[0]
+        what = "UDP multiplexer over a SOCKS5 upstream, client sources 10.8.0.2:4000.. to 203.0.113.7:5353, one association per source; " + {
+            2: "the relay answers the third datagram (source port 4000) with a packet that is too short, i.e. a read error on that association",
+            3: "the relay port named for the association of source port 4000 is closed, i.e. its sends are refused",
+            4: "the SOCKS5 server answers UDP ASSOCIATE after 150 ms, the UDP timeout is 400 ms (expiry timer every 100 ms), the datagrams of a pair follow each other within 200 ms",
+        }[fault]
+        if st != 200:
+            return [("disagree", "%s: CONNECT _udp2 answered %d" % (what, st))]
+        steps = toks[1:]
+        sent = " ".join("%d/%d%s" % (p, t, "" if r else "(no reply)") for p, t, r in steps)
+        if closed:
+            why = "when the expiry timer ran while a flow was being set up" if fault == 4 else "after a fault confined to one flow"
+            return [("violation", "%s: the multiplexer ended (the endpoint closed the tunnel) %s; datagrams source port/tag: %s" % (what, why, sent))]
+        # a reply is owed to every datagram except those whose association is the faulty one at that moment: the datagram answered with
+        # the malformed packet (tag 238), and everything sent through the closed relay port (source port 4000 under fault 3)
+        owed = [(p, t, r) for p, t, r in steps if t != 0xEE and not (fault == 3 and p == 4000)]
+        missing = [(p, t) for p, t, r in owed if not r]
+        if missing:
+            p, t = missing[0]
+            other = fault != 4 and p != 4000
+            return [("violation", "%s: the datagram with tag %d of source port %d got no reply (%s); datagrams source port/tag: %s"
+                     % (what, t, p, "the fault of one flow disturbed another" if other else "a later datagram on the pair did not start a fresh flow", sent))]
         return []
     if case.meta.get("socks_udp"):
         m = case.meta
